@@ -49,8 +49,8 @@ func (e c18V2CoordEnc) SplitUpkeepKey(k v2.UpkeepKey) (v2.BlockKey, v2.UpkeepIde
 
 type c18V2Runner struct{ p *c18Probe }
 
-func (r c18V2Runner) CheckUpkeep(context.Context, bool, ...v2.UpkeepKey) ([]v2.UpkeepResult, error) {
-	r.p.hit(c18SiteV2Check)
+func (r c18V2Runner) CheckUpkeep(ctx context.Context, _ bool, _ ...v2.UpkeepKey) ([]v2.UpkeepResult, error) {
+	r.p.hitCtx(ctx, c18SiteV2Check)
 	r.p.returned(c18SiteV2Check)
 	return nil, nil
 }
@@ -58,20 +58,20 @@ func (r c18V2Runner) CheckUpkeep(context.Context, bool, ...v2.UpkeepKey) ([]v2.U
 // every poll returns one confirmed perform log, so that the coordinator's encoder is exercised on its loop
 type c18V2Logs struct{ p *c18Probe }
 
-func (l *c18V2Logs) PerformLogs(context.Context) ([]v2.PerformLog, error) {
-	l.p.hit(c18SiteV2Perform)
+func (l *c18V2Logs) PerformLogs(ctx context.Context) ([]v2.PerformLog, error) {
+	l.p.hitCtx(ctx, c18SiteV2Perform)
 	return []v2.PerformLog{{Key: v2.UpkeepKey("10|7"), TransmitBlock: "11", Confirmations: 5, TransactionHash: "0xc18"}}, nil
 }
-func (l *c18V2Logs) StaleReportLogs(context.Context) ([]v2.StaleReportLog, error) {
-	l.p.hit(c18SiteV2Stale)
+func (l *c18V2Logs) StaleReportLogs(ctx context.Context) ([]v2.StaleReportLog, error) {
+	l.p.hitCtx(ctx, c18SiteV2Stale)
 	return nil, nil
 }
 
 // the registry reports one active upkeep, so that every head leads to MakeUpkeepKey and CheckUpkeep
 type c18V2Source struct{ p *c18Probe }
 
-func (s *c18V2Source) GetActiveUpkeepIDs(context.Context) ([]v2.UpkeepIdentifier, error) {
-	s.p.hit(c18SiteV2Source)
+func (s *c18V2Source) GetActiveUpkeepIDs(ctx context.Context) ([]v2.UpkeepIdentifier, error) {
+	s.p.hitCtx(ctx, c18SiteV2Source)
 	return []v2.UpkeepIdentifier{v2.UpkeepIdentifier("7")}, nil
 }
 
@@ -101,14 +101,16 @@ func (h *c18V2Heads) feed() {
 
 func newC18V2Sys(t testing.TB, in c18Input) *c18Sys {
 	pr := newC18Probe(in.PanicSite, in.PanicAtCall, in.PanicCount, in.CoolDownNs)
-	pr.setHold(in.HoldSite, in.HoldAtCall, in.HoldNs)
+	pr.setHold(in.HoldSite, in.HoldAtCall, in.HoldNs, in.HoldCtx)
 	heads := &c18V2Heads{ch: make(chan v2.BlockKey), quit: make(chan struct{})}
 	cf := &v2coord.CoordinatorFactory{Logger: quietLogger, Encoder: c18V2CoordEnc{p: pr}, Logs: &c18V2Logs{p: pr}, CacheClean: 30 * time.Second}
 	of := &polling.PollingObserverFactory{Logger: quietLogger, Source: &c18V2Source{p: pr}, Heads: heads, Runner: c18V2Runner{p: pr}, Encoder: c18V2Enc{p: pr}}
 	fac := v2.NewReportingPluginFactory(c18V2Enc{p: pr}, c18V2Runner{p: pr}, cf, of, quietLogger)
 	go heads.feed()
 	closeFn, first := c18Build(in, pr, func(cfg string) func() error {
-		p, _, err := fac.NewReportingPlugin(context.Background(), ocr2types.ReportingPluginConfig{N: 4, F: 1, OffchainConfig: []byte(cfg)})
+		cctx, ccancel := context.WithCancel(context.Background())
+		p, _, err := fac.NewReportingPlugin(cctx, ocr2types.ReportingPluginConfig{N: 4, F: 1, OffchainConfig: []byte(cfg)})
+		ccancel()
 		if err != nil {
 			t.Fatalf("v2 NewReportingPlugin: %v", err)
 		}
